@@ -323,7 +323,14 @@ def compare(case, tracks, src):
                 # over two ids, say) is still a set of linear tracklets: the importer keeps
                 # it as mapped, and C04 does not speak about supplied ids
                 continue
-            bad = fn(tracks)
+            try:
+                bad = fn(tracks)
+            except Exception as e:  # e.g. node ids that are not integers
+                probs.append((f"{what}-ids-after-import", f"reading the {what} ids of the "
+                              f"imported solution node by node raised {type(e).__name__}: "
+                              f"{str(e)[:200]} (node ids {list(g.nodes)[:5]})",
+                              f"C12/{src}/{what}-ids-after-import/raised/{type(e).__name__}"))
+                break
             if bad:
                 probs.append((f"{what}-ids-after-import", f"tid column {case['tid_mode']}, "
                               f"lineage column {case.get('lid_mode')}: {bad[0][1][:300]}",
